@@ -9,7 +9,10 @@ MANIFEST_TEXT = ("Lean 4 theorems in three layers. (1) Over an arbitrary linearl
                  "nearest integer, ties within epsilon in the documented direction, floor/floor+1 and the snap rules, integers are fixed points, unsigned targets); the same algorithms with the integer "
                  "target type explicit (roundM/truncM: every value stored in an I variable reduced as the type does, T(lower+1) after the integral promotions) are proved equal to them whenever nothing "
                  "wraps around (every signed type; unsigned with val >= 0), and for an unsigned target with val in (-1,0), where lower-- turns 0 into the largest value M: trunc upward / toward zero "
-                 "returns 0 (every style, every epsilon for which val is not equal to -1 within epsilon), round returns 0 or M according to whether the nearest integer is 0 or -1. (2) The functions the model "
+                 "returns 0 (every style, every epsilon for which val is not equal to -1 within epsilon), round returns 0 or M according to whether the nearest integer is 0 or -1; round returns the "
+                 "mathematical result whenever it and I(val) are values of the target type - every type, beyond the largest/smallest value of the type as well (round_of_fits; false before "
+                 "fixes/C17_round_range_end.patch: roundOld_range_end), trunc likewise for every non-negative argument (trunc_of_fits_nonneg), just above the largest value of unsigned / unsigned long "
+                 "(trunc_unsigned_top_down) and just below the smallest value of a narrow signed type (trunc_snap_conversion, trunc_narrow_bottom_up; truncOld_range_end). (2) The functions the model "
                  "driver actually executes on exact inputs (core Rat) are shown to be these generic functions at Q (rat_* theorems). (3) The comparison algebra "
                  "(symmetry, reflexivity, trichotomy, le/ge decomposition, vectors) is proved verbatim in the ROUNDING arithmetic FP f of every binary floating-point "
                  "format (fp_* theorems; all finite operands, overflow to infinity included; round/trunc fix integer-valued numbers of every magnitude). Over Int with a machine-width check on every intermediate: "
@@ -23,9 +26,10 @@ MANIFEST_NOTE = ("Trusted: Lean kernel (+propext/Classical.choice/Quot.sound), t
                  "(fidelity by differential execution against the hardware types and the harness minifloat), GMP as oracle, g++/ASan/UBSan, IEEE-754 conformance of "
                  "float/double/long double arithmetic of the test machine. The documented definitions and the round/trunc distance/direction laws are theorems of exact "
                  "arithmetic; for rounded arithmetic they are decided by the harness oracle up to one rounding per operation (three-valued), the algebraic laws are proved. "
-                 "Outside the checked domain: integer targets at the ends of their range (I(val)+-1 overflows), unsigned targets with val <= -1 (I(val) is undefined), and for val in (-1,0) "
-                 "the cases whose documented result is the integer -1 (round to -1; trunc downward / toward infinity, or val equal to -1 within epsilon: printed `unrep` by harness and driver, "
-                 "not compared), NaN/infinite arguments, long double classifiers, long long. The wrap-around law trunc_unsigned_neg_up is proved in exact arithmetic; in rounded arithmetic it is "
+                 "Outside the checked domain: int and long targets at the ends of their range (signed overflow of I(val)-1 / I(val)+2 is undefined behaviour; unsigned and narrow types are exercised "
+                 "up to the ends: every val whose I(val) is a value of the type), every val whose I(val) is not a value of the type (unsigned: val <= -1), and the cases whose documented result "
+                 "is not a value of the type (round: the wrapped value is compared with the model and flagged trivial; trunc: printed `unrep` by harness and driver, not compared), "
+                 "NaN/infinite arguments, long double classifiers, long long. The wrap-around law trunc_unsigned_neg_up is proved in exact arithmetic; in rounded arithmetic it is "
                  "pinned by the bit-exact model and judged by the three-valued oracle. Integer-valued arguments of every magnitude are inside "
                  "(round/trunc must return them unchanged, also where val+1 is not representable in T). The vector overloads of round/trunc in float_cmp.cc cannot "
                  "be instantiated (ambiguous partial specialisation, re-checked) and are not covered.")
@@ -36,10 +40,10 @@ HARNESS = dict(
     sources=["cxx_c17.cc"],
     repo_sources=[],
     libs=["-lgmpxx", "-lgmp"],
-    flags=["-O0"],   # three floating types x four integer types x 12 style pairs of templates: -O1 triples the compile time
+    flags=["-O0"],   # three floating types (+ two minifloats) x eight integer types x 12 style pairs of templates: -O1 triples the compile time
 )
 RULE = ("cases: cmp/cmpv (float,double x 3 styles; operand pairs placed on/next to the tolerance threshold, equal, opposite, zero; epsilons 0, <1, 1, >1), "
-        "round/trunc (4 rounding styles x signed/unsigned char/short/int/long targets; arguments at integers, halves, tie boundaries, distance epsilon from an integer, (-1,0] for unsigned targets), "
+        "round/trunc (4 rounding styles x signed/unsigned char/short/int/long targets; arguments at integers, halves, tie boundaries, distance epsilon from an integer, (-1,0] for unsigned targets, around the largest / smallest value of the unsigned and narrow types), "
         "fcmp/fcmpv/fround/ftrunc (the same on arbitrary finite float/double/long double values: random bit patterns, subnormals, extremes, partners nudged a few ulps around the "
         "threshold the code computes, epsilon omitted / default / 0 / tiny / >= 1/2; std::vector sizes 0..9 incl. unequal, FieldVector sizes 1..6,8), minifloat mf/mfr/mfrow/mfri "
         "(exhaustive tables; mfri = round/trunc of both 8-bit formats to unsigned char / signed char / unsigned for every value in range and every epsilon), pow/fact/binom at the representability boundary and exhaustive enumerations, sign, classifiers with one non-finite component, compile-time overloads "
@@ -50,12 +54,12 @@ ASSUMPTIONS = [
     "ops cmp/cmpv/round/trunc: operands are dyadic with few significant bits (f32: 12 bits in a 2^+-11 window, f64: 26 bits in a 2^+-26 window) so that every C++ intermediate is exact; the harness re-checks that with GMP; the model side is evaluated over the rationals",
     "ops fcmp/fcmpv/fround/ftrunc: arbitrary finite values; float/double/long double arithmetic of the machine is IEEE 754 round-to-nearest-even (binary32, binary64, x87 extended), which the Lean type FP f models; int<->float conversions round to nearest / truncate",
     "the minifloat class template is part of the harness (one rounding per operation, ties to even); its two instances are modelled by the same FP f with f = (4 bits, emin -6, emax 7) and f = (3 bits, emin -14, emax 15); the default epsilon is used with the first only",
-    "round/trunc: I(val), lower-1 and upper+1 stay inside the integer target type (signed: |I(val)| <= max-2; unsigned: I(val) <= max-2); unsigned targets: val > -1; for val in (-1,0) lower-- wraps around to the largest value M of the type, which the model reproduces (IType.wrap; IType.arith for the promotion of narrow types in T(lower+1))",
-    "trunc to an unsigned type, val in (-1,0) not equal to 0 within epsilon: where the documented result is the integer -1 (direction downward / toward infinity, or val equal to -1 within epsilon, or - minifloat 4+3 only - T(M) is infinite) harness and driver print `unrep` instead of the value (same predicate, evaluated in the arithmetic of T on both sides); everywhere else the oracle requires 0",
-    "ops round/trunc (exact rationals) with an unsigned target and val in (-1,0): trunc only where T(M) - val is exact in T (unsigned char with float; unsigned char, unsigned short with double); the other combinations are exercised by ftrunc (bit-exact model) and mfri",
+    "round/trunc, int and long targets: I(val), lower-1 and upper+1 stay inside the type (|I(val)| <= max-2; signed overflow is undefined behaviour). Unsigned and narrow (char, short) targets: I(val) is a value of the type (unsigned: val > -1) - arguments in (-1,0) and beyond the largest / smallest value of the type included; these types reduce modulo 2^bits, which the model reproduces (IType.wrap: unsigned and narrow signed; IType.arith: integral promotion of narrow types in T(lower+1)); the oracle reads a returned value as the congruent integer nearest to the argument",
+    "trunc where the documented result (closed form of trunc_downward_spec / trunc_upward_spec, evaluated in the arithmetic of T; the driver takes it from the mathematical-integer model `trunc`) is not a value of the target type - val in (-1,0) to an unsigned type truncated downward or equal to -1 within epsilon, val above the largest value truncated upward, ... or (minifloat 4+3 only) T(max) infinite: harness and driver print `unrep` instead of the value; everywhere else the oracle's laws apply",
+    "ops round/trunc (exact rationals): where something wraps around, trunc converts the wrapped value back to T (T(2^bits - 1) - val, ...), which is exact in T only for bits + exponent window <= precision (unsigned/signed char with float; char and short with double): only those combinations are run beyond the no-wrap domain; the others are exercised by ftrunc (bit-exact model) and mfri. round never converts a wrapped value",
     "a non-integer value of T is below 2^(digits-1), so its neighbouring integers convert exactly; integer-valued arguments (all values from 2^(digits-1) on) must be returned unchanged by round and trunc",
     "power is run with |p| <= 4096",
-    "the model describes the code after fixes/C17_binomial_overflow.patch, fixes/C17_round_unsigned.patch and fixes/C17_trunc_large.patch",
+    "the model describes the code after fixes/C17_binomial_overflow.patch, fixes/C17_round_unsigned.patch, fixes/C17_trunc_large.patch, fixes/C17_round_range_end.patch and fixes/C17_trunc_range_end.patch",
 ]
 TRUSTED = ["g++/libstdc++, ASan/UBSan, GMP as oracle", "translator tr_c17.py", "harness/cxx_c17.cc + Driver/C17.lean parsing/printing",
            "IEEE-754 conformance of the machine's float/double/long double operations"]
@@ -70,7 +74,8 @@ def batches(tier, seed):
         # a quarter of the exhaustive minifloat round/trunc table, rotating with the seed
         res.append(dict(args=["--kind", "mfrall", "--from", str((seed % 4) * 86400), "--cases", "86400", "--tier", tier], tag="mfr", timeout=300))
         # an eighth of the exhaustive minifloat x integer-type table (all types and values for 16 of the 124 epsilons), rotating with the seed
-        res.append(dict(args=["--kind", "mfriall", "--from", str((seed % 8) * 16 * 8160), "--cases", str(16 * 8160), "--tier", tier], tag="mfri", timeout=300))
+        # (the table has 681 (format, type, value) entries x 12 style pairs = 8172 lines per epsilon)
+        res.append(dict(args=["--kind", "mfriall", "--from", str((seed % 8) * 16 * 8172), "--cases", str(16 * 8172), "--tier", tier], tag="mfri", timeout=300))
         res.append(dict(args=["--kind", "rt", "--seed", str(seed * 1000 + 500), "--cases", "4000", "--tier", tier], tag="rt", timeout=300))
     else:
         n, parts = 600000, 8
